@@ -113,7 +113,7 @@ def _worker(args):
     pid = mod.ID
     t0 = time.time()
     stats = dict(
-        n=0, nontrivial=0, trans=0, nchecks=0, states=set(), classes=Counter(), skips=Counter(),
+        n=0, nontrivial=0, trans=0, nchecks=0, states=set(), nt_states=set(), classes=Counter(), skips=Counter(),
         viol=[], nviol=0, samples=[], maxratio=0.0, maxratio_case=None, rank=rank, counters=Counter(), known=Counter(),
     )
     gen = mod.cases(tier, seed)
@@ -122,9 +122,11 @@ def _worker(args):
         stats["n"] += 1
         stats["trans"] += rec.ntrans
         stats["nchecks"] += rec.nchecks
+        dg = _digest(rec.key if rec.key is not None else case)
         if not rec.trivial:
             stats["nontrivial"] += 1
-        stats["states"].add(_digest(rec.key if rec.key is not None else case))
+            stats["nt_states"].add(dg)
+        stats["states"].add(dg)
         stats["states"].update(rec.substates)
         for k, v in rec.counters.items():
             stats["counters"][k] += v
@@ -177,7 +179,7 @@ def explore(modname, tier, seed, jobs=None):
         with ctx.Pool(jobs) as pool:
             parts = pool.map(_worker, [(modname, tier, seed, r, jobs) for r in range(jobs)], chunksize=1)
     merged = dict(
-        n=0, nontrivial=0, trans=0, nchecks=0, states=set(), classes=Counter(), skips=Counter(),
+        n=0, nontrivial=0, trans=0, nchecks=0, states=set(), nt_states=set(), classes=Counter(), skips=Counter(),
         viol=[], nviol=0, samples=[], maxratio=0.0, maxratio_case=None, counters=Counter(), known=Counter(),
     )
     for p in parts:
@@ -188,6 +190,7 @@ def explore(modname, tier, seed, jobs=None):
         merged["trans"] += p["trans"]
         merged["nchecks"] += p["nchecks"]
         merged["states"] |= p["states"]
+        merged["nt_states"] |= p["nt_states"]
         merged["classes"] += p["classes"]
         merged["skips"] += p["skips"]
         merged["viol"] += p["viol"]
